@@ -267,6 +267,13 @@ func (c *ProcCase) SetDocOrder(flowOrder int, flowsFirst bool) {
 	}
 }
 
+// SetExplicitDefaults: optional attributes are written out with their default values (see Definitions.ExplicitDefaults).
+func (c *ProcCase) SetExplicitDefaults(on bool) {
+	if c.Prog != nil && c.Prog.Defs != nil {
+		c.Prog.Defs.ExplicitDefaults = on
+	}
+}
+
 func mkEvent(kind, ref string) event.IEvent {
 	if kind == "message" {
 		// "m#op": message m carrying operation op
